@@ -494,8 +494,8 @@ def _part_e(ctx, rounds):
 def run(ctx):
     from lib import vtime
     vtime.install()   # the protocol's 30 s linktest timer must not fire in the middle of a long session
-    _part_e(ctx, 4 if ctx.quick else 40)
     _part_a(ctx, 600 if ctx.quick else 6000)
     _part_b(ctx)
     _part_c(ctx, 25 if ctx.quick else 600)
     _part_d(ctx, 400 if ctx.quick else 20000)
+    _part_e(ctx, 4 if ctx.quick else 40)     # (last: part A codes SECS-I blocks before anything touches the HSMS codec in this process)
